@@ -25,3 +25,12 @@ E2_OP(sem_count) {
     if (!c.env.obj_is(op.a(0), "sem")) return RV(SKIPPED);
     return RV((int64_t)c.env.obj<photon::semaphore>(op.a(0))->count());
 }
+// observation only: demand of the waiter at the head of the queue (thread::semaphore_count of q.th;
+// thread.cpp static_asserts offsetof(thread, start) == 0x48 and semaphore_count shares that union)
+struct SemPeek : public photon::semaphore { photon::thread* head_thread() { return q.th; } };
+E2_OP(sem_head) {
+    if (!c.env.obj_is(op.a(0), "sem")) return RV(SKIPPED);
+    auto h = ((SemPeek*)c.env.obj<photon::semaphore>(op.a(0)))->head_thread();
+    if (!h) return RV(0);
+    return RV((int64_t)*(uint64_t*)((char*)h + 0x48));
+}
